@@ -149,7 +149,11 @@ PyAttr(s, v, a) ==
                        ELSE [found |-> FALSE, v |-> VNone]
       [] v.t = "loop" -> IF a \in LoopAttrs THEN [found |-> TRUE, v |-> LoopAttr(v, a)]
                          ELSE IF a = "cycle" THEN [found |-> TRUE, v |-> [t |-> "loopcycle", l |-> v]]
+                         ELSE IF a = "changed" THEN [found |-> TRUE, v |-> [t |-> "loopchanged", l |-> v]]
                          ELSE [found |-> FALSE, v |-> VNone]
+      [] v.t = "cycler" -> IF a = "current" THEN [found |-> TRUE, v |-> s.ns[v.id]["items"].v[s.ns[v.id]["pos"].n + 1]]
+                           ELSE IF a \in {"next", "reset"} THEN [found |-> TRUE, v |-> [t |-> "cyclerm", id |-> v.id, m |-> a]]
+                           ELSE [found |-> FALSE, v |-> VNone]
       [] v.t = "module" -> IF MapHas(v.attrs, a) THEN [found |-> TRUE, v |-> v.attrs[a]]
                            ELSE [found |-> FALSE, v |-> VNone]
       [] v.t = "tref" -> IF MapHas(s.cx[v.cx].blocks, a)
@@ -177,7 +181,7 @@ PyItem(s, v, key) ==
       [] OTHER -> [found |-> FALSE, v |-> VNone]
 
 \* values on which the model knows every attribute / item (others: EXCLUDED when missing)
-ClosedAttrs(v) == v.t \in {"obj", "ns", "loop", "module", "tref", "bref", "none", "int", "bool"}
+ClosedAttrs(v) == v.t \in {"obj", "ns", "loop", "module", "tref", "bref", "none", "int", "bool", "cycler"}
 
 UndefAttr(v, a) == VUndef([k |-> "attr", n |-> a, o |-> v.t])
 
@@ -324,6 +328,24 @@ Ev(e, s, E) ==
            LET a == Ev(e.a, s, E) IN
            IF Bad(a) THEN a
            ELSE LET i == Ev(e.i, a.S, E) IN IF Bad(i) THEN i ELSE GetItem(i.S, a.v, i.v)
+      [] e.k = "slice" ->
+           \* x[a:b] on lists (Python slice semantics, step 1): bounds are clamped, negative bounds count from the end
+           LET a == Ev(e.a, s, E) IN
+           IF Bad(a) THEN a
+           ELSE LET lo == IF Has(e, "lo") THEN Ev(e.lo, a.S, E) ELSE R(VNone, a.S) IN
+                IF Bad(lo) THEN lo
+                ELSE LET hi == IF Has(e, "hi") THEN Ev(e.hi, lo.S, E) ELSE R(VNone, lo.S) IN
+                     IF Bad(hi) THEN hi
+                     ELSE IF a.v.t = "undef" THEN Fail(hi.S, "UndefinedError")
+                     ELSE IF a.v.t # "list" \/ IsRange(a.v) THEN Fail(hi.S, "EXCLUDED")
+                     ELSE IF lo.v.t \notin {"int", "none"} \/ hi.v.t \notin {"int", "none"} THEN Fail(hi.S, "EXCLUDED")
+                     ELSE LET n == Len(a.v.v)
+                              Clamp(x, d) == IF x.t = "none" THEN d
+                                             ELSE IF x.n < 0 THEN (IF n + x.n < 0 THEN 0 ELSE n + x.n)
+                                             ELSE IF x.n > n THEN n ELSE x.n
+                              l == Clamp(lo.v, 0)
+                              h == Clamp(hi.v, n) IN
+                          R([t |-> "list", v |-> IF h > l THEN SubSeq(a.v.v, l + 1, h) ELSE <<>>, tup |-> a.v.tup], hi.S)
       [] e.k = "call" ->
            LET f == Ev(e.f, s, E) IN
            IF Bad(f) THEN f
@@ -384,7 +406,40 @@ CallValue(f, args, kw, s, E) ==
            ELSE IF f.n = "dict" THEN
                IF args # <<>> THEN Fail(s, "EXCLUDED")
                ELSE R(VDict([i \in 1..Len(kw.n) |-> StrKey(kw.n[i])], kw.v), s)
+           ELSE IF f.n = "cycler" THEN
+               \* cycler(*items): an object with .current, .next() and .reset(); state lives in the heap
+               IF kw.n # <<>> THEN Fail(s, "EXCLUDED")
+               ELSE IF args = <<>> THEN Fail(s, "TemplateRuntimeError")
+               ELSE R([t |-> "cycler", id |-> Len(s.ns) + 1],
+                      [s EXCEPT !.ns = Append(@, ("items" :> VList(args)) @@ ("pos" :> VInt(0)))])
+           ELSE IF f.n = "joiner" THEN
+               \* joiner(sep): a callable returning "" the first time and sep afterwards
+               IF kw.n # <<>> \/ Len(args) > 1 THEN Fail(s, "EXCLUDED")
+               ELSE R([t |-> "joiner", id |-> Len(s.ns) + 1],
+                      [s EXCEPT !.ns = Append(@, ("sep" :> (IF args = <<>> THEN VStr(<<Seg(", ", 0, "lit")>>, FALSE) ELSE args[1]))
+                                                   @@ ("used" :> VBool(FALSE)))])
            ELSE Fail(s, "EXCLUDED")
+      [] f.t = "joiner" ->
+           IF args # <<>> \/ kw.n # <<>> THEN Fail(s, "TypeError")
+           ELSE IF s.ns[f.id]["used"].b THEN R(s.ns[f.id]["sep"], s)
+           ELSE R(VStr(<<>>, FALSE), [s EXCEPT !.ns[f.id] = MapSet(@, "used", VBool(TRUE))])
+      [] f.t = "cyclerm" ->
+           IF args # <<>> \/ kw.n # <<>> THEN Fail(s, "TypeError")
+           ELSE LET cell == s.ns[f.id]
+                    items == cell["items"].v
+                    pos == cell["pos"].n IN
+                IF f.m = "next" THEN R(items[pos + 1], [s EXCEPT !.ns[f.id] = MapSet(@, "pos", VInt((pos + 1) % Len(items)))])
+                ELSE \* reset
+                     R(VNone, [s EXCEPT !.ns[f.id] = MapSet(@, "pos", VInt(0))])
+      [] f.t = "loopchanged" ->
+           \* loop.changed(*values): true iff the values differ from those of the previous call
+           IF kw.n # <<>> THEN Fail(s, "TypeError")
+           ELSE LET cell == s.ns[f.l.cell]
+                    prev == cell["last"]
+                    cur == VTuple(args)
+                    same == IF prev.t = "missing" THEN "F" ELSE PyEq(prev, cur) IN
+                IF same = "?" THEN Fail(s, "EXCLUDED")
+                ELSE R(VBool(same = "F"), [s EXCEPT !.ns[f.l.cell] = MapSet(@, "last", cur)])
       [] f.t = "loop" ->
            \* loop(children): recursive call of a recursive loop
            IF ~f.rec THEN Fail(s, "TypeError")
@@ -398,7 +453,7 @@ CallValue(f, args, kw, s, E) ==
            ELSE R(args[(f.l.i % Len(args)) + 1], s)
       [] f.t = "bref" -> RenderBlockRef(f, s, E)
       [] f.t = "undef" -> Fail(s, "UndefinedError")
-      [] f.t \in {"int", "bool", "none", "str", "list", "dict", "ns", "module", "tref"} -> Fail(s, "TypeError")
+      [] f.t \in {"int", "bool", "none", "str", "list", "dict", "ns", "module", "tref", "cycler"} -> Fail(s, "TypeError")
       [] OTHER -> Fail(s, "EXCLUDED")
 
 \* super() / self.name(): render the referenced block definition into a string
@@ -600,7 +655,7 @@ ApplyTest(n, v, args, s, E) ==
                            ELSE IF v.t = "undef" /\ UKof(v, UK) = "strict" THEN Fail(s, "UndefinedError")
                            ELSE R(VBool(v.t \in {"str", "list", "dict", "undef"}), s)
       [] n = "callable" -> IF v.t \in {"obj", "module", "ns", "loop", "undef"} THEN Fail(s, "EXCLUDED")
-                           ELSE R(VBool(v.t \in {"fn", "macro", "builtin", "bref", "loopcycle"}), s)
+                           ELSE R(VBool(v.t \in {"fn", "macro", "builtin", "bref", "loopcycle", "loopchanged", "joiner", "cyclerm"}), s)
       [] n \in {"odd", "even"} ->
            IF v.t = "undef" THEN Fail(s, "UndefinedError")
            ELSE IF IsNum(v) THEN R(VBool((PyMod(NumOf(v), 2) = 1) = (n = "odd")), s)
@@ -689,17 +744,18 @@ RunLoop(node, itv, depth0, s, E, isRec, inner) ==
     ELSE
     LET f == IF Has(node, "filter") THEN FilterItems(node, it.v, 1, s, E, <<>>) ELSE [S |-> s, items |-> it.v]
         items == f.items
+        cellId == Len(f.S.ns) + 1           \* heap cell of this loop instance (state of loop.changed)
         RECURSIVE Iter(_, _)
         Iter(i, st) ==
             IF i > Len(items) \/ st.err # "" \/ st.flow = "break" THEN st
             ELSE LET lp == [t |-> "loop", i |-> i - 1, items |-> items, depth0 |-> depth0,
-                            rec |-> Fld(node, "recursive", FALSE), node |-> node, E |-> E]
+                            rec |-> Fld(node, "recursive", FALSE), node |-> node, E |-> E, cell |-> cellId]
                      s0 == NewFrame([st EXCEPT !.flow = ""], ("loop" :> lp) @@ PreMap(node, "pre_body"))
                      E2 == [E EXCEPT !.sc = <<LastFrame(s0)>> \o E.sc, !.top = FALSE, !.loopd = E.loopd + 1]
                      s1 == AssignTarget(s0, E2, node.target, items[i])
                      s2 == ExSeq(node.body, s1, E2) IN
                  Iter(i + 1, s2)
-        after == IF f.S.err # "" THEN f.S ELSE Iter(1, f.S)
+        after == IF f.S.err # "" THEN f.S ELSE Iter(1, [f.S EXCEPT !.ns = Append(@, ("last" :> VMissing))])
         done == [after EXCEPT !.flow = ""]
     IN IF done.err # "" THEN done
        ELSE IF items = <<>> /\ Has(node, "else") THEN InScope(node["else"], done, E, PreMap(node, "pre_else"))
